@@ -99,6 +99,14 @@ def loop_perm(it: ast.AST, sorters: Dict[str, str], aliases: Dict[str, ast.AST])
             isinstance(it.generators[0].target, ast.Name) and isinstance(it.elt, ast.Subscript) and isinstance(it.elt.value, ast.Name) and \
             isinstance(it.elt.slice, ast.Name) and it.elt.slice.id == it.generators[0].target.id:
         return loop_perm(ast.Subscript(value=it.elt.value, slice=it.generators[0].iter, ctx=ast.Load()), sorters, aliases)
+    # Q[P][::-1]: the reverse slice of something visited in a known order is reversed(..) of it
+    if isinstance(it, ast.Subscript) and isinstance(it.slice, ast.Slice) and it.slice.lower is None and it.slice.upper is None and \
+            isinstance(it.slice.step, ast.UnaryOp) and isinstance(it.slice.step.op, ast.USub) and isinstance(it.slice.step.operand, ast.Constant) and \
+            it.slice.step.operand.value == 1 and isinstance(it.value, ast.Subscript):
+        r = loop_perm(it.value, sorters, aliases)
+        if r:
+            return Perm(r[0].base, not r[0].rev, r[0].inv), r[1]
+        return None
     if isinstance(it, ast.Subscript) and isinstance(it.value, ast.Name):
         p = perm_of(it.slice, sorters)
         if p and not p.inv and sorters.get(p.base) == it.value.id:
